@@ -23,6 +23,9 @@ pub const KF_FEED_ID: &str = "C16-user-name-shadows-self-variable";
 pub const KF_GLOBAL_NAME: &str = "C16-user-name-mimium-global";
 /// `let {a = x} = ({a = 1.0})` — a parenthesised record on the right of a record pattern crashes
 pub const KF_PAREN_RECORD: &str = "C16-parenthesised-record-pattern-rhs";
+/// record update `{r <- f = e}` is desugared through a variable named `record_update_temp`; a user
+/// variable of that name used in `e` is shadowed (known finding)
+pub const KF_RECORD_TEMP: &str = "C16-user-name-record-update-temp";
 
 const ORDINARY: &[&str] = &["alpha", "beta", "gamma", "delta", "omega", "kappa", "sigma", "theta", "lambda1", "mu", "nu", "xi", "rho", "tau", "phi", "chi", "psi", "zeta", "eta", "iota"];
 const ODD: &[&str] = &["_x", "x_", "x0", "X", "a_b_c", "__", "_1", "dsp_", "self_", "now_", "float_", "fn_", "Let", "selfish", "nowhere", "iff", "mem_", "delay1"];
@@ -48,7 +51,7 @@ struct Transform {
     compiler_like: usize,
 }
 
-fn gen_transform(p: &Prog, g: &mut Gen, allow_feed_id: bool, allow_global_name: bool, bare_record_rhs: bool) -> Transform {
+fn gen_transform(p: &Prog, g: &mut Gen, allow_feed_id: bool, allow_global_name: bool, allow_record_temp: bool, bare_record_rhs: bool) -> Transform {
     let names = prog::binders(p);
     let mut rename = vec![];
     let mut used: Vec<String> = vec![];
@@ -68,6 +71,9 @@ fn gen_transform(p: &Prog, g: &mut Gen, allow_feed_id: bool, allow_global_name: 
         let mut cand = pool[g.usize_below(pool.len())].to_string();
         if !allow_feed_id && cand.starts_with("feed_id") {
             cand = format!("feedid{}", i);
+        }
+        if !allow_record_temp && cand == "record_update_temp" {
+            cand = format!("record_update_tmp{}", i);
         }
         if !allow_global_name && cand == "_mimium_global" {
             cand = format!("_mimium_global{}", i);
@@ -174,7 +180,7 @@ impl Prop for C16 {
     }
     fn spaces(&self, tier: Tier) -> Vec<Space> {
         match tier {
-            Tier::Quick => vec![Space { name: "gen", size: 5000, exhaustive: false, chunk: 200, case_timeout_s: 60.0, what: "generated programs x (consistent renaming into ordinary / odd / compiler-like names, redundant parentheses, agreeing annotations, comments, indentation, blank lines)" }],
+            Tier::Quick => vec![Space { name: "gen", size: 30000, exhaustive: false, chunk: 200, case_timeout_s: 60.0, what: "generated programs x (consistent renaming into ordinary / odd / compiler-like names, redundant parentheses, agreeing annotations, comments, indentation, blank lines)" }],
             Tier::Thorough => vec![Space { name: "gen", size: 150_000, exhaustive: false, chunk: 1000, case_timeout_s: 60.0, what: "generated programs x source-to-source transformations" }],
         }
     }
@@ -188,7 +194,7 @@ impl Prop for C16 {
         let mut pg = PG::new(g, cfg);
         let p = pg.program();
         let mut classes = pg.feat.classes();
-        let t = gen_transform(&p, g, !cx.excluded(KF_FEED_ID), !cx.excluded(KF_GLOBAL_NAME), cx.excluded(KF_PAREN_RECORD));
+        let t = gen_transform(&p, g, !cx.excluded(KF_FEED_ID), !cx.excluded(KF_GLOBAL_NAME), !cx.excluded(KF_RECORD_TEMP), false);
         let orig = prog::render(&p, &Layout::default());
         let trans = apply(&p, &t);
         let inputs = gen_inputs(g);
@@ -216,7 +222,7 @@ impl Prop for C16 {
         for id in off {
             r.count(&format!("generator_switch_off:{id}"), 1);
         }
-        for id in [KF_FEED_ID, KF_GLOBAL_NAME, KF_PAREN_RECORD] {
+        for id in [KF_FEED_ID, KF_GLOBAL_NAME, KF_RECORD_TEMP] {
             if cx.excluded(id) {
                 r.count(&format!("generator_switch_off:{id}"), 1);
             }
